@@ -336,3 +336,55 @@ Proof.
       * vm_compute. auto.
     + eexists. vm_compute. reflexivity.
 Qed.
+
+(* ---- root discovery (round 3; Model/RootDiscovery.v) ------------------------------------------
+   The DOWNWARD search of config.FindBundleRootDirectories ([walk_down]) on any tree.  [dir_at p nm t d dn ds]:
+   the tree t (spelled p) holds, at any depth, a directory spelled d whose entries are ds; [marker ds]: ds
+   holds a FILE ".manifest" or a DIRECTORY ".regal".  A directory is discovered as a root iff it holds a
+   marker -- at any depth, whatever its ancestors and siblings hold (markers of their own, or none) -- or a
+   discovered .regal directory declares it (project.roots of its config.yaml, its rules directory). *)
+From Regal Require Import Model.RootDiscovery Proofs.RootDiscovery.
+
+Theorem c13_roots_discovered_exact :
+  forall (p nm : str) (t : rnode) (r : str),
+  In r (walk_down p nm t) <->
+  (exists dn ds, dir_at p nm t r dn ds /\ marker ds = true)
+  \/ (exists d dn ds rcs, dir_at p nm t d dn ds /\ regal_dir ds = Some rcs /\
+        In r (declared d (cfg_of_regal rcs) ++ rules_of d rcs)).
+Proof. exact roots_discovered_exact. Qed.
+Print Assumptions c13_roots_discovered_exact.
+
+(* what FindBundleRootDirectories answers for an argument contains everything the downward walk of that
+   argument finds (the upward search only adds) *)
+Theorem c13_roots_include_downward_walk :
+  forall rp rn t comps p nm cs above roots,
+  descend rp rn t comps [] = Some ((p, nm, cs), above) ->
+  find_bundle_roots rp rn t comps = Some roots ->
+  forall r, In r (walk_down p nm (RDir cs)) -> In r roots.
+Proof. exact find_bundle_roots_includes_walk. Qed.
+Print Assumptions c13_roots_include_downward_walk.
+
+(* non-vacuity: a bundle nested in a bundle, next to a sibling whose name extends the outer one's, and a
+   .regal directory below the inner bundle; no regal config anywhere above.  All four are discovered from
+   the top, the inner ones also when the search starts at the outer bundle -- and the variant that stops
+   looking at a directory once its .manifest was seen (seeded change C13-5) loses everything below /R/pol. *)
+Definition rd_manifest : str * rnode := (MANIFEST, RFile []).
+Definition rd_tree : rnode :=
+  RDir [(lit "pol", RDir [rd_manifest;
+                          (lit "inner", RDir [rd_manifest; (lit "x", RDir [(lit "p.rego", RFile [])]);
+                                              (lit "deep", RDir [(REGAL, RDir [])])]);
+                          (lit "y", RDir [(lit "p.rego", RFile [])])]);
+        (lit "pol-draft", RDir [rd_manifest])].
+Example c13_roots_discovered_nonvacuous :
+  find_bundle_roots (lit "/R") (lit "R") rd_tree []
+    = Some [lit "/R/pol"; lit "/R/pol/inner"; lit "/R/pol/inner/deep"; lit "/R/pol-draft"]
+  /\ find_bundle_roots (lit "/R") (lit "R") rd_tree [lit "pol"]
+    = Some [lit "/R/pol"; lit "/R/pol/inner"; lit "/R/pol/inner/deep"]
+  /\ get_potential_roots (lit "/R") (lit "R") rd_tree [[lit "pol"; lit "y"]] = Some [lit "/R/pol/y"]
+  /\ walk_down_skipping (lit "/R") (lit "R") rd_tree = [lit "/R/pol"; lit "/R/pol-draft"]
+  /\ dir_at (lit "/R") (lit "R") rd_tree (lit "/R/pol/inner") (lit "inner")
+       [rd_manifest; (lit "x", RDir [(lit "p.rego", RFile [])]); (lit "deep", RDir [(REGAL, RDir [])])].
+Proof.
+  repeat split; try (vm_compute; reflexivity).
+  eapply da_below; [left; reflexivity |]. eapply da_below; [right; left; reflexivity |]. apply da_here.
+Qed.
